@@ -2,6 +2,7 @@ package execsim
 
 import (
 	"bytes"
+	"context"
 	"crypto/sha256"
 	"encoding/base64"
 	"errors"
@@ -190,6 +191,47 @@ func C06(r *simkit.Run) {
 		if writerOK && !validNow {
 			r.Fail(prop, "writer-leaves-valid", "writer-left-invalid", "%s succeeded but the directory does not validate: %v", step, verr)
 			return
+		}
+		// Whatever consumes the directory validates it first: an executor asked to run it (all of it,
+		// or up to one of its versions) refuses a directory that does not validate and executes nothing.
+		if names := sqlNames(m); !validNow && len(names) > 0 && t.Chance("consumer-on-invalid-directory", 1, 3) {
+			drv := &SimDriver{FailAlways: map[string]bool{}, FailOnce: map[string]bool{}}
+			ex, err := migrate.NewExecutor(drv, local, NewSimRevs(), migrate.WithAllowDirty(true))
+			if err != nil {
+				simkit.Harnessf("NewExecutor: %v", err)
+			}
+			how := "ExecuteN(0)"
+			var xerr error
+			func() {
+				defer func() {
+					if p := recover(); p != nil {
+						xerr = fmt.Errorf("panic: %v", p)
+						pan = fmt.Sprint(p)
+					}
+				}()
+				if t.Chance("consumer-to-version", 1, 2) {
+					files, ferr := local.Files()
+					if ferr != nil || len(files) == 0 {
+						xerr = migrate.ErrChecksumMismatch // unreadable: nothing to ask for
+						return
+					}
+					v := files[t.Draw("consumer-version", len(files))].Version()
+					how = "ExecuteTo(" + v + ")"
+					xerr = ex.ExecuteTo(context.Background(), v)
+				} else {
+					xerr = ex.ExecuteN(context.Background(), 0)
+				}
+			}()
+			r.Fired("consumer/executor")
+			r.Logf("  %s on the invalid directory -> %v (%d statements)", how, xerr, len(drv.Effects))
+			switch {
+			case pan != "":
+				r.Fail(prop, "no-crash", "executor-panic", "%s: %s panicked: %s", step, how, pan)
+				return
+			case xerr == nil || len(drv.Effects) > 0:
+				r.Fail(prop, "integrity", "executor-accepts-tampered-dir/"+strings.SplitN(how, "(", 2)[0], "%s: the directory does not validate (%v), yet %s ran %d statements and returned %v", step, verr, how, len(drv.Effects), xerr)
+				return
+			}
 		}
 		if mustDetect && validBefore {
 			r.Probe("tamper-on-valid-directory")
